@@ -7,6 +7,7 @@ coordinates iff they name a dimension else attrs; resources are recorded nowhere
 attrs kept.  DataFrame: one row per logged call, each row's outputs decode to that row's
 own arguments.
 """
+import random
 import concurrent.futures
 from collections import Counter
 
@@ -171,7 +172,8 @@ def run_varying(ctx, case):
             if entry == "combo_to_ds":
                 ds = xyzpy.combo_runner_to_ds(fn, gens.spell_combos(combos, case["combo_spelling"]), var_names=None, **opts)
             elif entry == "case_to_ds":
-                ds = xyzpy.case_runner_to_ds(fn, None, cs, var_names=None, combos=combos_arg, **opts)
+                ds = xyzpy.case_runner_to_ds(fn, None, [dict(reversed(list(c.items()))) if i_ % 2 else c for i_, c in enumerate(cs)],
+                                             var_names=None, combos=combos_arg, **opts)
             elif entry == "runner_combos":
                 ds = xyzpy.Runner(fn, var_names=None).run_combos(gens.spell_combos(combos, case["combo_spelling"]), **opts)
             elif entry == "runner_cases":
@@ -319,7 +321,14 @@ def run_case(ctx, case):
             cases_arg = [tuple(c[a] for a in names) for c in cs]
             fn_args = tuple(names)
         else:
-            cases_arg = [dict(c) for c in cs]
+            # dict cases may list their keys in any order (the first case fixes the axis order)
+            krng = random.Random(rs)
+            cases_arg = []
+            for i_, c in enumerate(cs):
+                ks = list(c)
+                if i_ > 0:
+                    krng.shuffle(ks)
+                cases_arg.append({k: c[k] for k in ks})
             fn_args = None if rs % 2 else tuple(names)
         combos_arg = gens.spell_combos(sub, "dict") if sub else None
     else:
